@@ -6,6 +6,7 @@ Import ListNotations.
 From LunaLib Require Import Netlist Machine.
 From LunaModel Require Import Crc HdrRx HdrRx_proofs HdrRxReentry.
 Open Scope N_scope.
+Unset Lia Cache.
 
 Section Reentry.
   Variables n pw cw sw : N.
